@@ -56,6 +56,8 @@ MATCHERS = {}
 @check("C01")
 def c01(res, tier, rng, wd):
     thorough = tier == "thorough"
+    design_server(res, "C01", ["OperationalMatchesReference", "OneReplyWhenAddressed", "ExceptionCodes", "EmptyNeverAnswered",
+                               "SilentUnlessAddressed"], thorough)
     lat = e1.full_lattice(rng)
     scs = []
     sid = 0
@@ -181,6 +183,7 @@ def run_e1(res, pid, scs, wd, name):
 @check("C02")
 def c02(res, tier, rng, wd):
     thorough = tier == "thorough"
+    design_server(res, "C02", ["OperationalMatchesReference", "CallsJustified", "NoEffectWithoutCall"], thorough)
     lat = e1.full_lattice(rng)
     scs = []
     for framing in ("tcp", "rtu"):
@@ -214,6 +217,7 @@ def c02(res, tier, rng, wd):
 @check("C05")
 def c05(res, tier, rng, wd):
     thorough = tier == "thorough"
+    design_readbuf(res, "C05", thorough)
     scs = e1.gen_c05(rng, 0, thorough)
     run_e1(res, "C05", scs, wd, "c05")
     run_e2(res, "C05", e2.gen_c05_client(rng, thorough), wd, "c05client")
@@ -227,6 +231,7 @@ def c05(res, tier, rng, wd):
 @check("C06")
 def c06(res, tier, rng, wd):
     thorough = tier == "thorough"
+    design_crc(res, "C06", thorough)
     scs = e1.gen_c06(rng, 0, thorough)
     run_e1(res, "C06", scs, wd, "c06")
     run_e2(res, "C06", e2.gen_c06_client(rng, thorough), wd, "c06client")
@@ -256,6 +261,7 @@ def c07(res, tier, rng, wd):
 @check("C08")
 def c08(res, tier, rng, wd):
     thorough = tier == "thorough"
+    design_server(res, "C08", ["DenyHasNoEffect", "AuthBeforeEffect", "AuthExactlyOnceForWellFormed", "ExceptionCodes"], thorough)
     scs = e1.gen_c08(rng, 0, thorough)
     run_e1(res, "C08", scs, wd, "c08")
     res.assumptions = E1_ASSUME + ["the role string reaches the session through the verif-hooks constructor; the certificate path is C09's"]
@@ -267,6 +273,8 @@ def c08(res, tier, rng, wd):
 @check("C17")
 def c17(res, tier, rng, wd):
     thorough = tier == "thorough"
+    design_server(res, "C17", ["SilentUnlessAddressed", "BroadcastNeverAnswered", "BroadcastOnceEach", "BroadcastReadsIgnored"],
+                  thorough, neg=True)
     scs = e1.gen_c17(rng, 0, thorough)
     run_e1(res, "C17", scs, wd, "c17")
     res.assumptions = E1_ASSUME
@@ -278,6 +286,7 @@ def c17(res, tier, rng, wd):
 @check("C20")
 def c20(res, tier, rng, wd):
     thorough = tier == "thorough"
+    design_client(res, "C20", [], ["DecodeUnobservable"], thorough)
     lat = e1.full_lattice(rng)
     base = []
     for framing in ("tcp", "rtu"):
@@ -363,6 +372,7 @@ def c04(res, tier, rng, wd):
 @check("C10")
 def c10(res, tier, rng, wd):
     thorough = tier == "thorough"
+    design_client(res, "C10", ["AtMostOnce", "NothingPendingAtEnd", "Conservation", "ShutdownOnlyWhenGone"], ["Classified"], thorough)
     scs = e2.gen_c10(rng, 3000 if thorough else 400, thorough)
     run_e2(res, "C10", scs, wd, "c10")
     res.assumptions = E2_ASSUME + ["session-level part (one connection after another); the whole channel task is covered by the E3 part of this check"]
@@ -375,6 +385,8 @@ def c10(res, tier, rng, wd):
 @check("C11")
 def c11(res, tier, rng, wd):
     thorough = tier == "thorough"
+    design_client(res, "C11", ["OneOutstanding"], ["OnlyMatchingCompletes", "TxAdvancesPerDequeue"], thorough,
+                  neg=("notxcheck", "OnlyMatchingCompletes", False))
     scs = e2.gen_c11(rng, thorough)
     run_e2(res, "C11", scs, wd, "c11")
     if thorough:
@@ -388,6 +400,7 @@ def c11(res, tier, rng, wd):
 
 @check("C12")
 def c12(res, tier, rng, wd):
+    design_client(res, "C12", ["CounterRule"], ["TimeoutNeverEarly", "NoLimitNeverDrops"], tier == "thorough")
     scs = e2.gen_c12(rng, tier == "thorough")
     run_e2(res, "C12", scs, wd, "c12")
     res.assumptions = E2_ASSUME + ["virtual time: the script advances the clock explicitly, so 'exactly at the deadline' is observable"]
@@ -399,6 +412,8 @@ def c12(res, tier, rng, wd):
 
 @check("C13")
 def c13(res, tier, rng, wd):
+    design_client(res, "C13", ["ListenerPathLegal", "FailFast", "ShutdownIsLast", "NothingPendingAtEnd"], ["NoConnectWhileDisabled"],
+                  tier == "thorough")
     scs = e2.gen_c13(rng, tier == "thorough")
     run_e2(res, "C13", scs, wd, "c13")
     res.assumptions = E2_ASSUME + ["the production TcpChannelTask obtains its connections from the verif-hooks connector "
@@ -412,6 +427,7 @@ def c13(res, tier, rng, wd):
 
 @check("C14")
 def c14(res, tier, rng, wd):
+    design_client(res, "C14", [], ["DelaysFollowStrategy", "AttemptNotBeforeWake"], tier == "thorough")
     scs = e2.gen_c14(rng, tier == "thorough")
     run_e2(res, "C14", scs, wd, "c14")
     res.assumptions = E2_ASSUME + ["delays are observed in virtual milliseconds: the announced delay (listener) and the instant of the next connection attempt"]
@@ -419,3 +435,57 @@ def c14(res, tier, rng, wd):
                            "connects, success, lost connection (EOF, garbage, consecutive-timeout limit), disable/enable; the script waits "
                            "delay-1 and then 1 ms, so an attempt that starts earlier or later than the announced delay, a delay that is not "
                            "min*2^(k-1) capped at max, or a missing reset after success is a rejection")
+
+
+# --------------------------------------------------------------------------- design-level model checking
+SCALED = {"MaxReadBits": 3, "MaxReadRegs": 2, "MaxWriteCoils": 3, "MaxWriteRegs": 2, "AddrSpace": 8}
+
+
+def design_server(res, pid, invariants, thorough=False, neg=False):
+    c = dict(SCALED)
+    c.update({"Units": "{1, 2}", "ProbeUnits": "{0, 1, 2, 3}", "Fcs": "{1, 3, 5, 6, 15, 16, 7, 129}" if not thorough else "{1, 2, 3, 4, 5, 6, 15, 16, 0, 7, 129, 255}",
+              "Bytes": "{0, 1, 2, 255}", "TailBytes": "{0, 1, 255}", "HoleSet": "<- HoleSetDef",
+              "Policies": '{"none", "hash", "deny", "readonly"}', "Framings": '{"tcp", "rtu"}',
+              "ErrorRepliesBeforeUnitLookup": "FALSE"})
+    vf.design_run(res, pid, "ServerSession_MC", "ServerSession_MC.tla", "Spec", c, invariants=invariants)
+    if neg:
+        c2 = dict(c)
+        c2["ErrorRepliesBeforeUnitLookup"] = "TRUE"
+        c2["Fcs"] = "{3, 7}"
+        vf.design_run(res, pid, "ServerSession_MC-neg(F5 order)", "ServerSession_MC.tla", "Spec", c2,
+                      invariants=["SilentUnlessAddressed"], expect_violation="SilentUnlessAddressed")
+
+
+def design_client(res, pid, invariants, properties, thorough=False, neg=None):
+    base = dict(SCALED)
+    base.update({"TxMod": 4, "Bug": '"none"', "NReq": 2, "MaxCmds": 2, "MaxPeer": 2, "MaxTicks": 3, "MaxAttempts": 2,
+                 "Cap": 1, "MaxTO": 1, "RMin": 1, "RMax": 2, "WithAbort": "FALSE"})
+    t = dict(base)
+    t["Mode"] = '"task"'
+    vf.design_run(res, pid, "Client_MC-task", "Client_MC.tla", "SpecMC", t, invariants, properties)
+    sss = dict(base)
+    sss.update({"Mode": '"session"', "MaxPeer": 3, "WithAbort": "TRUE"})
+    vf.design_run(res, pid, "Client_MC-session", "Client_MC.tla", "SpecMC", sss, invariants, properties)
+    if thorough:
+        big = dict(t)
+        big.update({"NReq": 3, "MaxCmds": 3, "MaxPeer": 3, "MaxTicks": 4, "WithAbort": "TRUE", "Cap": 2, "MaxTO": 2})
+        vf.design_run(res, pid, "Client_MC-task-big", "Client_MC.tla", "SpecMC", big, invariants, properties, workers=14, xmx="24g")
+    if neg:
+        bug, prop, is_inv = neg
+        n = dict(sss)
+        n["Bug"] = f'"{bug}"'
+        vf.design_run(res, pid, f"Client_MC-neg({bug})", "Client_MC.tla", "SpecMC", n,
+                      invariants=[prop] if is_inv else [], properties=[] if is_inv else [prop], expect_violation=prop)
+
+
+def design_readbuf(res, pid, thorough=False):
+    inv = ["FramesArePrefix", "Complete", "ErrorIffMalformed", "NoMissedError", "NoZeroSpaceRead", "Bounds"]
+    vf.design_run(res, pid, "ReadBuf_MC", "ReadBuf_MC.tla", "Spec", {"MaxLen": 3, "MaxFrames": 3, "ShiftRule": '"end"'}, inv)
+    if thorough:
+        vf.design_run(res, pid, "ReadBuf_MC-big", "ReadBuf_MC.tla", "Spec", {"MaxLen": 4, "MaxFrames": 4, "ShiftRule": '"end"'}, inv)
+    vf.design_run(res, pid, "ReadBuf_MC-neg(shift when full)", "ReadBuf_MC.tla", "Spec",
+                  {"MaxLen": 3, "MaxFrames": 3, "ShiftRule": '"full"'}, ["NoZeroSpaceRead"], expect_violation="NoZeroSpaceRead")
+
+
+def design_crc(res, pid, thorough=False):
+    vf.design_run(res, pid, "Crc_MC", "Crc_MC.tla", "Spec", {"N": 254 if thorough else 64}, ["Lemma"], workers=1)
